@@ -32,6 +32,9 @@ AggVal(d, ix) ==
     [] d.fn = "avg"   -> IF u = <<>> THEN NullV ELSE Norm(SumF(u), Scale * Len(u))
     [] d.fn = "min"   -> IF u = <<>> THEN NullV ELSE Norm(MinF(u), Scale)
     [] d.fn = "max"   -> IF u = <<>> THEN NullV ELSE Norm(MaxF(u), Scale)
+    \* value of the last row in which the column is present (an explicit NULL counts)
+    [] d.fn = "last_value" -> LET ps == SelectSeq(ix, LAMBDA i : Has(rows[i], d.arg)) IN
+                              IF ps = <<>> THEN NullV ELSE FromSV(rows[ps[Len(ps)]][d.arg])
 Keys == {cfg.aggdefs[i].key : i \in 1..Len(cfg.aggdefs)}
 DefOf(key) == cfg.aggdefs[CHOOSE i \in 1..Len(cfg.aggdefs) : cfg.aggdefs[i].key = key]
 AggEnv(k) == [key \in Keys |-> AggVal(DefOf(key), Idx(k))]
